@@ -99,6 +99,7 @@ type Group struct {
 	FailAt   int    `json:"fail_at,omitempty"` // callback index that fails (-1 none)
 	ViaCLI   bool   `json:"via_cli,omitempty"` // loads go through cli.ProjectOptions.LoadProject
 	ShareFiles bool `json:"share_config_files,omitempty"` // goroutines loading the same layout pass the same ConfigFiles slice
+	ShareLoaders bool `json:"share_resource_loaders,omitempty"` // all loads of the group set Options.ResourceLoaders to the same slice (one entry, spare capacity)
 	ShareInterp bool `json:"share_interpolation_options,omitempty"` // all loads of the group pass the same *interp.Options through their option function
 	ShareEnv   bool `json:"share_environment,omitempty"`  // goroutines loading the same layout pass the same Environment map (one ConfigDetails value used twice)
 }
@@ -184,7 +185,30 @@ func configFiles(L *Layout) []types.ConfigFile {
 
 // loadVia performs one load. Every call has its own Environment map and options; `shared`, when not nil, is a
 // ConfigFiles slice handed to several concurrent calls (an input the loader has no business writing to).
-func loadVia(L *Layout, p *prng, perturb, viaCLI bool, shared []types.ConfigFile, sharedEnv types.Mapping, ip *interp.Options) outcome {
+// nopLoader is a caller-registered resource loader that accepts nothing.
+type nopLoader struct{}
+
+func (nopLoader) Accept(string) bool                           { return false }
+func (nopLoader) Load(context.Context, string) (string, error) { return "", errors.New("not mine") }
+func (nopLoader) Dir(string) string                            { return "." }
+
+// callerLoaders: a loader list as a caller may keep it - one entry, room for more.
+func callerLoaders() []loader.ResourceLoader {
+	return append(make([]loader.ResourceLoader, 0, 4), nopLoader{})
+}
+
+// shareOpts: caller-provided values handed to the loader through the option function; when a group shares them
+// every load of the group gets the same ones. The loader may read them.
+type shareOpts struct {
+	ip      *interp.Options
+	loaders []loader.ResourceLoader
+}
+
+func loadVia(L *Layout, p *prng, perturb, viaCLI bool, shared []types.ConfigFile, sharedEnv types.Mapping, x *shareOpts) outcome {
+	var ip *interp.Options
+	if x != nil {
+		ip = x.ip
+	}
 	cd := types.ConfigDetails{WorkingDir: filepath.Join(L.root, L.WorkingDir), Environment: types.Mapping{}}
 	if sharedEnv != nil {
 		// the same ConfigDetails value handed to several loads: an input, not a scratch pad
@@ -215,6 +239,9 @@ func loadVia(L *Layout, p *prng, perturb, viaCLI bool, shared []types.ConfigFile
 		lo.SetProjectName(name, o.NameImperative)
 		if ip != nil {
 			lo.Interpolate = ip // a caller-provided value, possibly shared with concurrent loads: the loader may read it
+		}
+		if x != nil && x.loaders != nil {
+			lo.ResourceLoaders = x.loaders
 		}
 		if perturb {
 			// a listener is a caller-supplied function the library calls on its hot paths (extends/include)
@@ -294,11 +321,11 @@ func TestSoloChild(t *testing.T) {
 			os.Exit(2)
 		}
 		L.name, L.root = n, roots[i]
-		var ip *interp.Options
+		var x *shareOpts
 		if os.Getenv("VERIF_SOLO_INTERP") == "1" {
-			ip = callerInterp()
+			x = &shareOpts{ip: callerInterp()}
 		}
-		last = loadVia(L, &prng{x: 1}, false, os.Getenv("VERIF_SOLO_CLI") == "1", nil, nil, ip)
+		last = loadVia(L, &prng{x: 1}, false, os.Getenv("VERIF_SOLO_CLI") == "1", nil, nil, x)
 	}
 	b, _ := json.Marshal(map[string]any{"ok": last.ok, "hash": last.hash, "err": last.err})
 	fmt.Println("SOLO-CHILD-RESULT " + string(b))
@@ -455,9 +482,15 @@ func TestRace(t *testing.T) {
 					}
 				}
 			}
-			var groupInterp *interp.Options
+			var groupShare *shareOpts
 			if g.ShareInterp {
-				groupInterp = callerInterp()
+				groupShare = &shareOpts{ip: callerInterp()}
+			}
+			if g.ShareLoaders {
+				if groupShare == nil {
+					groupShare = &shareOpts{}
+				}
+				groupShare.loaders = callerLoaders()
 			}
 			for i := range g.Layouts {
 				wg.Add(1)
@@ -481,7 +514,7 @@ func TestRace(t *testing.T) {
 						// whole process ("concurrent map writes"), which would cost the worker its remaining budget
 						time.Sleep(time.Duration(i) * 150 * time.Millisecond)
 					}
-					outs[i] = loadVia(L, p, g.Perturb, g.ViaCLI, sharedFiles[L.name], sharedEnv[L.name], groupInterp)
+					outs[i] = loadVia(L, p, g.Perturb, g.ViaCLI, sharedFiles[L.name], sharedEnv[L.name], groupShare)
 				}()
 			}
 			for int(ready.Load()) < len(g.Layouts) {
@@ -674,10 +707,10 @@ func TestRace(t *testing.T) {
 				if pc.g.ViaCLI {
 					skey += "#cli"
 				}
-				var soloInterp *interp.Options
+				var soloInterp *shareOpts
 				if pc.g.ShareInterp {
 					skey += "#interp"
-					soloInterp = callerInterp()
+					soloInterp = &shareOpts{ip: callerInterp()}
 				}
 				s, ok := solo[skey]
 				if !ok {
@@ -776,6 +809,7 @@ func TestRace(t *testing.T) {
 				g.Threads = 2 + master.n(15)
 				same := master.n(3) == 0
 				g.ShareInterp = !g.ViaCLI && master.n(5) == 0
+				g.ShareLoaders = !g.ViaCLI && master.n(5) == 0
 				if !g.ViaCLI && shareEnvGroups < 12 && master.n(4) == 0 {
 					// one ConfigDetails value (hence one Environment map) loaded by two goroutines
 					g.ShareEnv, g.Threads, same = true, 2, true
